@@ -73,7 +73,38 @@ def random_histories(ctx, props, count, steps, maxnodes):
         ctx.sample({"events": batch[-1][0], "ops": batch[-1][1][:6]})
 
 
+def parse_only_documents(ctx):
+    """Documents parsed by html.parser with a parse_only filter: what is kept must be one consistently linked tree
+    (rejected elements must leave no trace in any link). Oracle only."""
+    from bs4 import BeautifulSoup, SoupStrainer
+    import warnings
+    pieces = ["<a>one</a>", "<b>two</b>", "<a><b>x</b>y</a>", "t", "<!--c-->", "<b><a>z</a></b>", "<br>", "<a id='1'>", "</a>", "<p>"]
+    filters = [lambda: SoupStrainer("a"), lambda: SoupStrainer("b"), lambda: SoupStrainer(["a", "b"]), lambda: SoupStrainer(id="1"),
+               lambda: SoupStrainer(string="t"), lambda: SoupStrainer("zz")]
+    import itertools
+    n = 0
+    for k in (1, 2, 3):
+        for combo in itertools.product(pieces, repeat=k):
+            if k == 3 and ctx.rng.random() > (1.0 if ctx.thorough else 0.25):
+                continue
+            markup = "".join(combo)
+            for fi, mk in enumerate(filters):
+                with warnings.catch_warnings():
+                    warnings.simplefilter("ignore")
+                    soup = BeautifulSoup(markup, "html.parser", parse_only=mk())
+                ctx.case(("parse_only", markup, fi), nontrivial=len(soup.contents) > 0)
+                n += 1
+                bad = T.walk_check(T.Forest(soup))
+                if bad:
+                    ctx.fail({"markup": markup, "parse_only_filter": fi, "events": [], "ops": []},
+                             "a document parsed with parse_only is not consistently linked: " + bad[0], bad[:5])
+                    return
+    ctx.count("parse_only_documents", n)
+
+
 def run(ctx, props=PROPS):
+    if "C01" in props:
+        parse_only_documents(ctx)
     if ctx.thorough:
         exhaustive(ctx, props, 4, 2)
         random_histories(ctx, props, 4000, 25, 30)
